@@ -19,13 +19,20 @@ func (Engine) Generate(r *core.Rng, property, tier string) *core.Plan {
 		// emergency policy: one actor's address is frozen from some height on
 		p.SetKnob("frozen", int64(r.Intn(10)))
 		p.SetKnob("frozenh", p.Knob("maturity", 2)+3+int64(r.Intn(14)))
+		if r.Bool(0.6) {
+			// a second listed address with its own start height, before or
+			// after the first one in the list
+			p.SetKnob("frozen2", int64(r.Intn(10)))
+			p.SetKnob("frozen2h", p.Knob("maturity", 2)+3+int64(r.Intn(14)))
+			p.SetKnob("frozen2first", int64(r.Intn(2)))
+		}
 	}
 	if property == "C03" || property == "C05" {
 		// script actors: key-less addresses behind malformed redeem scripts
 		p.SetKnob("weird", int64(r.Range(1, 4)))
 		p.SetKnob("weirdpick", int64(r.Intn(1000)))
 	}
-	if property == "C05" || r.Bool(0.2) {
+	if property == "C05" || property == "C34" || r.Bool(0.2) {
 		// multisig actors: addresses controlled by M of N key-holding actors
 		p.SetKnob("multi", int64(r.Range(1, 2)))
 	}
@@ -224,6 +231,13 @@ func (g *gen) block() *BlockSpec {
 	b := &BlockSpec{Miner: r.Intn(10), Dt: r.Intn(600)}
 	for k := r.Pick(2, 4, 3, 2, 1); k > 0; k-- {
 		b.Txs = append(b.Txs, g.tx())
+	}
+	if g.on["mempool"] && r.Bool(0.15) || g.poolHeavy && r.Bool(0.3) {
+		// another miner heard the same transactions the node pooled
+		for k := r.Range(1, 3); k > 0; k-- {
+			b.Pool = append(b.Pool, r.Intn(1000))
+		}
+		b.Variant = r.Bool(0.5)
 	}
 	if g.on["fork"] && r.Bool(0.35) {
 		switch r.Intn(4) {
